@@ -186,3 +186,21 @@ def run_tlc(job, workdir, timeout=3600, workers=1, heap="3g"):
     shutil.rmtree(os.path.join(d, "meta"), ignore_errors=True)
     return {"job": job.name, "states": states, "distinct": distinct, "ok": ok, "err": err, "out": out, "wall": wall,
             "dir": d}
+
+
+class RawJob:
+    """A model that is not an instance of TaSystem (Ctor.tla, DataItem.tla, Cursor.tla): module + cfg text given as is."""
+
+    def __init__(self, name, module_text, cfg_text, tables=None, mode="bfs", sim=None, threads=1, sched=None):
+        self.sched = sched            # a schedule dict for Streams.tla models (written next to the model as sched.json)
+        self.name = name
+        self.module_text = module_text
+        self.cfg_text = cfg_text
+        self.tables = tables          # "ctor" | "dataitem" | None (spec-level only)
+        self.emit = tables is not None or sched is not None
+        self.mode = mode
+        self.sim = sim
+        self.threads = threads
+
+    def module(self):
+        return "MC_" + self.name, self.module_text, self.cfg_text
